@@ -689,3 +689,49 @@ def _cf_cases():
 contract("ghost:dump_custom_format", use_at_calls=False, opaque=["dby"],
          cases=_cf_cases(), check_frames=False)
 _REG["ghost:dump_custom_format"].modes = ["gregorian"]
+
+
+# ---------------------------------------------------------------- recurrence text round trip (C14)
+def mk_rec_parser2(E, st):
+    from .durtext_t4 import mk_parser
+    ci = E.db.class_by_name["TimeRecurrenceParser"]
+    r = st.alloc("obj", ci, fresh=False)
+    st.obj(r).slots.update({"timepoint_parser": mk_text_parser(E, st, x=2, assumed=None),
+                            "duration_parser": mk_parser(E, st)})
+    return r
+
+
+def _rec_text_cases():
+    from .recurrence_t3 import mk_rec
+    out = []
+    for kind in ("fwd-bounded", "fwd-unbounded", "rev-unbounded", "single"):
+        for dmask in ((0b1000,) if kind == "single" else (0b0001, 0b0010, 0b1111, 0b1100)):
+            def build(E, st, kind=kind, dmask=dmask):
+                r = mk_rec(E, st, "r", kind, "cal", "hms", "exact-whole", whole=True)
+                d = st.obj(r).slots.get("_duration")
+                if d is not None:
+                    sl = st.obj(d).slots
+                    for i, nm in enumerate(("_days", "_hours", "_minutes", "_seconds")):
+                        if dmask >> i & 1:
+                            v = z3.Int("p:r._duration." + nm)
+                            st.assume(v > 0)
+                            sl[nm] = v if nm == "_days" else z3.ToReal(v)
+                        else:
+                            sl[nm] = 0
+                return {"r": r, "rparser": mk_rec_parser2(E, st)}
+            req = ["rec_ok(r)", "r._min_point is None and r._max_point is None"]
+            for pt in ("_start_point", "_end_point"):
+                req.append("(0 <= r.%s._year and r.%s._year <= 9999 and r.%s._dump_format is None)"
+                           " if r.%s is not None else True" % (pt, pt, pt, pt))
+            out.append(Case("%s/%s" % (kind, "".join(
+                l if dmask >> i & 1 else "-" for i, l in enumerate("DHMS"))), build,
+                requires=req))
+    return out
+
+
+contract("ghost:rec_text_round_trip", use_at_calls=False, opaque=["dby"], merge=False,
+         cases=_rec_text_cases(), check_frames=False)
+_REG["ghost:rec_text_round_trip"].modes = ["gregorian"]
+_REG["ghost:rec_text_round_trip"].cases = [
+    c for c in _REG["ghost:rec_text_round_trip"].cases
+    if not c.name.startswith("fwd-bounded") or c.name in ("fwd-bounded/D---", "fwd-bounded/-H--")]
